@@ -349,6 +349,67 @@ func ruleReorderGuard(p *Prog, r *Result) {
 			n++
 			r.add(eq, fmt.Sprintf("%s|same-op|store#%d", p.FName(fn), i+1), p.InstrPos(st), "operands are re-associated only when the inner node has the same operator as the outer one ((x - 1) + 2 must not become x + 3)")
 		}
+		// operand order: concatenation does not commute, so (a op c1) op c2 becomes a op (c1 op c2), never a op (c2 op c1)
+		sameVal := func(v ssa.Value) ssa.Value {
+			for {
+				v = stripConv(v)
+				switch x := v.(type) {
+				case *ssa.TypeAssert:
+					v = x.X
+				case *ssa.Extract:
+					if ta, ok := x.Tuple.(*ssa.TypeAssert); ok && x.Index == 0 {
+						v = ta.X
+						continue
+					}
+					return v
+				default:
+					return v
+				}
+			}
+		}
+		for i, st := range stores {
+			al, ok := stripConv(st.Val).(*ssa.Alloc)
+			if !ok || typeName(al.Type()) != "BinaryOpExpr" {
+				continue
+			}
+			var lv, rv ssa.Value
+			for _, ref := range *al.Referrers() {
+				fa, ok := ref.(*ssa.FieldAddr)
+				if !ok {
+					continue
+				}
+				_, f, _, _ := fieldOfAddr(fa)
+				for _, u := range *fa.Referrers() {
+					if s2, ok := u.(*ssa.Store); ok && s2.Addr == ssa.Value(fa) {
+						switch f {
+						case "Left":
+							lv = sameVal(s2.Val)
+						case "Right":
+							rv = sameVal(s2.Val)
+						}
+					}
+				}
+			}
+			_, _, storedField, _ := func() (*types.Named, string, string, bool) {
+				o, f, _, ok := fieldOfAddr(st.Addr)
+				return o, f, f, ok
+			}()
+			okOrder := false
+			if lv != nil && rv != nil {
+				lo, lf, lb, lok := loadedField(lv)
+				ro, rf, rb, rok := loadedField(rv)
+				if lok && rok && lo != nil && ro != nil && lo.Obj().Name() == "BinaryOpExpr" && ro.Obj().Name() == "BinaryOpExpr" {
+					switch storedField {
+					case "Right": // (a op c1) op c2  =>  a op (c1 op c2): new.Left = inner.Right, new.Right = outer.Right
+						okOrder = lf == "Right" && lb != e && rf == "Right" && rb == e
+					case "Left": // c1 op (c2 op a)  =>  (c1 op c2) op a: new.Left = outer.Left, new.Right = inner.Left
+						okOrder = lf == "Left" && lb == e && rf == "Left" && rb != e
+					}
+				}
+			}
+			n++
+			r.add(okOrder, fmt.Sprintf("%s|order|store#%d", p.FName(fn), i+1), p.InstrPos(st), "the merged constant keeps the textual order of its operands (+ on text is concatenation: (a + c1) + c2 is a + (c1 + c2), not a + (c2 + c1))")
+		}
 	}
 	r.floor("re-association obligations", n, 10)
 }
